@@ -63,7 +63,15 @@ def world(tss, n_steps, script, perm_p, perm_s, rev_ports, rev_state,
             '_default': np.array([0, 0]), '_emit': True}
         spec['update']['shared']['arr'] = {'$lit': np.array([1, 1])}
         spec['update']['priv']['seen'] = {'$stateref': ('shared', 'arr')}
-        ports = {'priv': (f's{i}',), 'shared': ('shared',)}
+        # a third port, wired with a DICTIONARY, reaches a variable that
+        # the tuple-wired port 'shared' updates too: both contributions
+        # count, whatever order the ports are listed in
+        spec['schema']['shared']['num2'] = dict(sched.NUM)
+        spec['schema']['bonus'] = {'num2': dict(sched.NUM)}
+        spec['update']['shared']['num2'] = 1
+        spec['update']['bonus'] = {'num2': 1}
+        ports = {'priv': (f's{i}',), 'shared': ('shared',),
+                 'bonus': {'num2': ('shared', 'num2')}}
         if rev_ports:
             ports = dict(reversed(list(ports.items())))
             spec['schema'] = dict(reversed(list(spec['schema'].items())))
@@ -124,7 +132,8 @@ def world(tss, n_steps, script, perm_p, perm_s, rev_ports, rev_state,
     topology = {}
     for k in names:
         topology[k] = topo_p.get(k) or topo_s.get(k)
-    state = {'shared': {'num': 0, 'tok': (), 'arr': np.array([0, 0])}}
+    state = {'shared': {'num': 0, 'num2': 0, 'tok': (),
+                        'arr': np.array([0, 0])}}
     if layout == 'recruit':
         state['kids'] = {'k0': {'v': 1}}
     for i in range(len(tss)):
@@ -203,6 +212,13 @@ def check_one(spec, ex):
                   'update-applied-before-it-was-due',
                   f'{pid} invoked at t={t} sees shared.num='
                   f'{snap["shared"]["num"]} but {n_due} updates were due')
+                return out
+            if snap['shared'].get('num2') != 2 * snap['shared']['num']:
+                V('C04.committed', 'contribution-of-one-port-lost',
+                  f'{pid} invoked at t={t}: shared.num2='
+                  f'{snap["shared"].get("num2")} but shared.num='
+                  f'{snap["shared"]["num"]}: every update adds 1 to num '
+                  f'and, through two ports, 2 to num2')
                 return out
             for kk in spec['step_ids']:
                 if snap['derived'][f'copy{kk}'] != snap['shared']['num']:
@@ -496,3 +512,7 @@ def replay(case):
         run_job((case['tss'], case['n_steps'], case['script'],
                  tuple(gate) if gate else None), acc)
     return [v for exs in acc.viol_examples.values() for v in exs]
+
+
+RULE += (
+    ' Every process also reaches one variable through a tuple-wired and a dictionary-wired port (both contributions must count in any port order).')
